@@ -84,7 +84,8 @@ fn query_bytes(q: &Value) -> Vec<u8> {
 /// The PDUs the server wrote, grouped into response entries.
 #[derive(Debug, Clone, PartialEq)]
 pub enum Entry {
-    Notify,
+    /// Serial Notify with the version octet it carries
+    Notify(u8),
     Full(u8),
     Diff(u8),
     CReset(u8),
@@ -113,8 +114,16 @@ pub fn parse_out(bytes: &[u8]) -> Vec<Entry> {
                 if sess != SESSION { res.push(Entry::Malformed(format!("cache response for session {sess}, the source's is {SESSION}"))); }
                 open = Some((ver, 0))
             }
-            (4 | 6 | 9 | 11, Some((_, n))) => *n += 1,
+            (4 | 6 | 9 | 11, Some((v, n))) => {
+                // one response speaks one protocol version from its Cache Response to its End of Data
+                if ver != *v { res.push(Entry::Malformed(format!("payload PDU type {typ} with version {ver} inside a version {v} response"))); }
+                *n += 1
+            }
             (7, Some((v, n))) => {
+                if ver != *v { res.push(Entry::Malformed(format!("end of data with version {ver} closes a version {v} response"))); }
+                // RFC 6810 / RFC 8210: twelve octets in version 0, twenty-four (with the three timers) from version 1 on
+                let want_len = if *v == 0 { 12 } else { 24 };
+                if len != want_len { res.push(Entry::Malformed(format!("end of data of {len} octets in a version {v} response (the format has {want_len})"))); }
                 // the End of Data names the source's current state (session, serial 5), whatever the client asked with
                 let serial = u32::from_be_bytes([bytes[i + 8], bytes[i + 9], bytes[i + 10], bytes[i + 11]]);
                 if sess != SESSION || serial != 5 {
@@ -128,7 +137,7 @@ pub fn parse_out(bytes: &[u8]) -> Vec<Entry> {
                 if sess != SESSION || serial != 5 {
                     res.push(Entry::Malformed(format!("serial notify names session {sess} serial {serial}, the source is at session {SESSION} serial 5")));
                 }
-                res.push(Entry::Notify)
+                res.push(Entry::Notify(ver))
             }
             (8, None) => res.push(Entry::CReset(ver)),
             (10, None) => res.push(Entry::Err(ver, sess)),
@@ -206,7 +215,7 @@ fn run_script(queries: &Value, script: &[(String, usize)], flush_rest: bool, ord
                 if pending_out.is_empty() { return; }
                 for e in parse_out(pending_out) {
                     events.push(match e {
-                        Entry::Notify => json!({"ev": "out", "kind": "notify", "q": 0, "ver": 0, "code": 0}),
+                        Entry::Notify(v) => json!({"ev": "out", "kind": "notify", "q": 0, "ver": v, "code": 0}),
                         Entry::Full(v) => { *qi_seen += 1; json!({"ev": "out", "kind": "full", "q": *qi_seen, "ver": v, "code": 0}) }
                         Entry::Diff(v) => { *qi_seen += 1; json!({"ev": "out", "kind": "diff", "q": *qi_seen, "ver": v, "code": 0}) }
                         Entry::CReset(v) => { *qi_seen += 1; json!({"ev": "out", "kind": "creset", "q": *qi_seen, "ver": v, "code": 0}) }
@@ -272,6 +281,7 @@ pub fn replay(args: &[String]) {
     let trace_every = arg_u64(args, "--trace-every", 10);
     let mut trace = arg_val(args, "--trace-out").map(|p| TraceOut::create(&p));
     let mut s = Summary::new();
+    let mut pre_versions: std::collections::BTreeMap<u8, Value> = Default::default();
     for (ci, c) in cases.iter().enumerate() {
         let script: Vec<(String, usize)> = c["script"].as_array().unwrap().iter().map(|a| (a[0].as_str().unwrap().to_string(), a[1].as_u64().unwrap() as usize)).collect();
         let closes = script.iter().any(|a| a.0 == "close");
@@ -281,8 +291,9 @@ pub fn replay(args: &[String]) {
             Err(m) => s.violation("panic", m, c.clone()),
             Ok(r) => {
                 let want = expected(&c["answers"]);
-                let got: Vec<Entry> = r.out.iter().filter(|e| **e != Entry::Notify).cloned().collect();
-                let notifies = r.out.iter().filter(|e| **e == Entry::Notify).count();
+                let got: Vec<Entry> = r.out.iter().filter(|e| !matches!(e, Entry::Notify(_))).cloned().collect();
+                let notifies = r.out.iter().filter(|e| matches!(e, Entry::Notify(_))).count();
+                notify_versions(&r.out, &mut pre_versions, &mut s, c);
                 if let Some(Entry::Malformed(m)) = r.out.iter().find(|e| matches!(e, Entry::Malformed(_))) {
                     s.violation("out:malformed", format!("server output is not a sequence of whole responses: {m}"), c.clone());
                 } else {
@@ -330,8 +341,36 @@ pub fn replay(args: &[String]) {
         s.eval_if(script.len() >= 2, &format!("{}|{}", c["stream"], c["script"]));
         if s.samples.len() < 3 && ci % 1500 == 7 { s.sample(c.clone()); }
     }
+    notify_versions_verdict(&pre_versions, &mut s);
     if let Some(t) = trace { s.set("trace_events", json!(t.finish())); }
     s.print();
+}
+
+/// The version octet of every Serial Notify.  Once the connection has a version (a data response or a Cache Reset has been
+/// written in it) a Serial Notify must speak it.  Before that the statement only says that what the server writes depends on
+/// the client's bytes and the source, not on how the bytes arrive: the octet must be the same in every run.
+fn notify_versions(out: &[Entry], pre: &mut std::collections::BTreeMap<u8, Value>, s: &mut Summary, c: &Value) {
+    let mut conn: Option<u8> = None;
+    // after an Error PDU as the first thing written the connection may or may not have settled on a version (a query of
+    // the wrong length does, one with an unsupported version does not): nothing is demanded until a data response says so
+    let mut unsure = false;
+    for e in out {
+        match e {
+            Entry::Full(v) | Entry::Diff(v) | Entry::CReset(v) => { if conn.is_none() { conn = Some(*v) } }
+            Entry::Err(_, _) | Entry::Malformed(_) => { if conn.is_none() { unsure = true } }
+            Entry::Notify(v) => match conn {
+                Some(cv) => if *v != cv { s.violation("out:notify-version", format!("Serial Notify with version {v} on a connection that speaks version {cv}"), c.clone()) },
+                None => if !unsure { pre.entry(*v).or_insert_with(|| c.clone()); }
+            },
+        }
+    }
+}
+fn notify_versions_verdict(pre: &std::collections::BTreeMap<u8, Value>, s: &mut Summary) {
+    s.set("pre_negotiation_notify_versions", json!(pre.keys().collect::<Vec<_>>()));
+    if pre.len() > 1 {
+        let (v, c) = pre.iter().last().unwrap();
+        s.violation("out:notify-version-varies", format!("Serial Notify before any version is negotiated carries version octets {:?} depending on how the client's bytes arrive", pre.keys().collect::<Vec<_>>()), json!({"version": v, "case": c}));
+    }
 }
 
 /// impl -> spec with random chunkings and notify storms over one of the model's streams.
@@ -344,6 +383,7 @@ pub fn drive(args: &[String]) {
     let mut rng = Rng::new(seed);
     let mut t = TraceOut::create(&out);
     let mut s = Summary::new();
+    let mut pre_versions: std::collections::BTreeMap<u8, Value> = Default::default();
     for i in 0..n {
         let mut script = Vec::new();
         let mut left = total;
@@ -355,11 +395,14 @@ pub fn drive(args: &[String]) {
             }
         }
         match guarded(|| run_script(&queries, &script, false, false)) {
-            Ok(r) => { for e in r.events { t.ev(e); } s.eval(Some(&format!("{i}"))); }
+            Ok(r) => {
+                notify_versions(&r.out, &mut pre_versions, &mut s, &json!({"seed": seed, "i": i, "script": script.iter().map(|a| format!("{}:{}", a.0, a.1)).collect::<Vec<_>>()}));
+                for e in r.events { t.ev(e); } s.eval(Some(&format!("{i}"))); }
             Err(m) => s.violation("trace:panic", m, json!({"seed": seed, "i": i})),
         }
         if i == 0 { s.sample(json!({"script": script.iter().map(|a| format!("{}:{}", a.0, a.1)).collect::<Vec<_>>()})); }
     }
+    notify_versions_verdict(&pre_versions, &mut s);
     s.set("events", json!(t.finish()));
     s.print();
 }
